@@ -1,7 +1,7 @@
 """Contracts for mabwiser/greedy.py (_EpsilonGreedy)."""
 from pyvc.spec import klass, fn
-from specs.base_mab import (FIT_PARAMS, ARM_PARAMS, INIT_PARAMS, PRED_PARAMS, status_fresh, forall_arms, pe_result,
-                            pred_result, SINGLE)
+from specs.base_mab import (FIT_PARAMS, INIT_PARAMS, status_fresh, forall_arms, S0, M_ROWS as M, N_ARMS as N,
+                            STATUS_AFTER_FIT, STATUS_AFTER_PARTIAL, arm_change_contracts, predict_contracts)
 
 klass('_EpsilonGreedy',
       fields={'epsilon': 'real const', 'arm_to_sum': 'map:real', 'arm_to_count': 'map:real'},
@@ -31,14 +31,6 @@ fn('greedy._EpsilonGreedy._fit_arm', props='C01 C05 C06 C07 C20',
             '[mean] self.arm_to_expectation[arm] == (self.arm_to_sum[arm] / self.arm_to_count[arm] '
             'if cnt(decisions, arm) > 0 else old(self.arm_to_expectation[arm]))'])
 
-STATUS_AFTER_FIT = forall_arms('val(self.arm_to_status, a, "is_trained") == (cnt(decisions, a) > 0) and '
-                               'not val(self.arm_to_status, a, "is_warm") and '
-                               'val(self.arm_to_status, a, "warm_started_by") == NONE_ARM()')
-STATUS_AFTER_PARTIAL = forall_arms(
-    'val(self.arm_to_status, a, "is_trained") == (old(val(self.arm_to_status, a, "is_trained")) or cnt(decisions, a) > 0) '
-    'and val(self.arm_to_status, a, "is_warm") == old(val(self.arm_to_status, a, "is_warm")) and '
-    'val(self.arm_to_status, a, "warm_started_by") == old(val(self.arm_to_status, a, "warm_started_by"))')
-
 fn('greedy._EpsilonGreedy.fit', props='C01 C06 C07 C08 C20',
    params=FIT_PARAMS,
    requires=['INV.keys', 'INV.arms', 'slen(decisions) == slen(rewards)', 'slen(self.arms) > 0'],
@@ -61,72 +53,16 @@ fn('greedy._EpsilonGreedy.partial_fit', props='C01 C06 C08 C20',
             '[C13,acc.status] ' + STATUS_AFTER_PARTIAL])
 
 # expectation reported for arm a when there is no context / one row: with probability epsilon a fresh uniform draw
-# per arm (in arm order), otherwise the stored mean.  s0 is the stream state at entry.
-S0 = 'old(rngstate(self.rng))'
+# per arm (in arm order), otherwise the stored mean.  S0 is the stream state at entry.
 E1 = ('(draw_u(unext(next_u(%s), pos(self.arms, a))) if draw_u(%s) < self.epsilon else val(self.arm_to_expectation, a))'
       % (S0, S0))
-M = 'rows(contexts)'
-N = 'slen(self.arms)'
 EM = ('(mat_at(draw_um(next_uv(%s, %s), %s, %s), j, pos(self.arms, a)) if at(draw_uv(%s, %s), j) < self.epsilon '
       'else val(self.arm_to_expectation, a))' % (S0, M, M, N, S0, M))
-
-fn('greedy._EpsilonGreedy.predict_expectations', props='C01 C08 C09 C10',
-   params=PRED_PARAMS, result=pe_result,
-   requires=['INV'],
-   modifies=['self.rng.rng.state'],
-   ensures=['[C08,shape] is_dict(result) == %s' % SINGLE,
-            '[C08,keys] (keys(result) == self.arms) if is_dict(result) else (slen(result) == rows(contexts) and '
-            'forall_int(lambda j: implies(0 <= j and j < rows(contexts), keys(item(result, j)) == self.arms)))',
-            '[C01,C09,values] (forall_arm(lambda a: implies(mem(self.arms, a), val(result, a) == %s))) '
-            'if is_dict(result) else forall_int(lambda j: implies(0 <= j and j < rows(contexts), '
-            'forall_arm(lambda a: implies(mem(self.arms, a), val(item(result, j), a) == %s))))' % (E1, EM),
-            '[C10,stream] rngstate(self.rng) == ((unext(next_u(%s), %s) if draw_u(%s) < self.epsilon else next_u(%s)) '
-            'if is_dict(result) else next_um(next_uv(%s, %s), %s, %s))' % (S0, N, S0, S0, S0, M, M, N)])
-
-fn('greedy._EpsilonGreedy.predict', props='C08 C09 C10',
-   params=PRED_PARAMS, result=pred_result,
-   requires=['INV', 'slen(self.arms) > 0'],
-   modifies=['self.rng.rng.state'],
-   ensures=['[C08,shape] is_list(result) == (not %s)' % SINGLE,
-            # C09: the first arm attaining the maximum of the expectations predict_expectations returns
-            '[C09,argmax] (result == argmax_over(self.arms, lambda a: %s)) if not is_list(result) else '
-            '(slen(result) == rows(contexts) and forall_int(lambda j: implies(0 <= j and j < rows(contexts), '
-            'at(result, j) == argmax_over(self.arms, lambda a: %s))))' % (E1, EM),
-            '[C08,member] mem(self.arms, result) if not is_list(result) else '
-            'forall_int(lambda j: implies(0 <= j and j < rows(contexts), mem(self.arms, at(result, j))))',
-            '[C10,stream] rngstate(self.rng) == ((unext(next_u(%s), %s) if draw_u(%s) < self.epsilon else next_u(%s)) '
-            'if not is_list(result) else next_um(next_uv(%s, %s), %s, %s))' % (S0, N, S0, S0, S0, M, M, N)])
-
-# ---- arm changes (BaseMAB.add_arm / remove_arm with this class's hooks).  MAB has already appended / removed
-# the label in the shared arm list when these run.
-ADD_REQ = ['INV~arms', 'self.arms == appended(keys(self.arm_to_expectation), arm)',
-           'not inkeys(self.arm_to_expectation, arm)']
-REM_REQ = ['INV~arms', 'self.arms == removed(keys(self.arm_to_expectation), arm)',
-           'inkeys(self.arm_to_expectation, arm)']
-
-
-def unchanged(maps, status=True):
-    parts = ['val(self.%s, a) == old(val(self.%s, a))' % (m, m) for m in maps]
-    if status:
-        parts += ['val(self.arm_to_status, a, "%s") == old(val(self.arm_to_status, a, "%s"))' % (c, c)
-                  for c in ('is_trained', 'is_warm', 'warm_started_by')]
-    return ' and '.join(parts)
-
+predict_contracts('greedy', '_EpsilonGreedy', E1, EM,
+                  '(unext(next_u(%s), %s) if draw_u(%s) < self.epsilon else next_u(%s))' % (S0, N, S0, S0),
+                  'next_um(next_uv(%s, %s), %s, %s)' % (S0, M, M, N))
 
 GREEDY_MAPS = ['arm_to_sum', 'arm_to_count', 'arm_to_expectation']
-fn('base_mab.BaseMAB.add_arm', cls='_EpsilonGreedy', props='C01 C08',
-   params={'arm': 'arm', 'binarizer': 'opt:callable'},
-   requires=ADD_REQ,
-   modifies=['self.arm_to_sum{}', 'self.arm_to_count{}', 'self.arm_to_expectation{}', 'self.arm_to_status{}'],
-   ensures=['INV',
-            '[C01,neutral] val(self.arm_to_sum, arm) == 0 and val(self.arm_to_count, arm) == 0 and '
-            'val(self.arm_to_expectation, arm) == 0 and ' + status_fresh('arm'),
-            '[C01,others] forall_arm(lambda a: implies(old(inkeys(self.arm_to_expectation, a)), %s))'
-            % unchanged(GREEDY_MAPS)])
-fn('base_mab.BaseMAB.remove_arm', cls='_EpsilonGreedy', props='C01 C08',
-   params={'arm': 'arm'},
-   requires=REM_REQ,
-   modifies=['self.arm_to_sum{}', 'self.arm_to_count{}', 'self.arm_to_expectation{}', 'self.arm_to_status{}'],
-   ensures=['INV',
-            '[C01,others] forall_arm(lambda a: implies(inkeys(self.arm_to_expectation, a), %s))'
-            % unchanged(GREEDY_MAPS)])
+arm_change_contracts('_EpsilonGreedy', GREEDY_MAPS,
+                     'val(self.arm_to_sum, arm) == 0 and val(self.arm_to_count, arm) == 0 and '
+                     'val(self.arm_to_expectation, arm) == 0')
